@@ -1371,6 +1371,9 @@ class _State:
         if beh == "func_fresh":
             return AV("func", ref=("vectorized",))
         if beh == "elem":
+            kf = kwargs.get("key")
+            if kf is not None and kf.kind == "func" and kf.ref is not None and a0 is not None:
+                self.apply(kf, [iter_elem(a0)], {}, node, env)
             e = content(a0) if a0 is not None else None
             if len(pa) > 1:
                 e = None
@@ -1380,8 +1383,14 @@ class _State:
         if beh == "box_scalar":
             return lst(SCALAR)
         if beh == "box":
+            kf = kwargs.get("key")
+            if kf is not None and kf.kind == "func" and kf.ref is not None and a0 is not None:
+                # sorted(xs, key=f) / min / max: f is applied to every element
+                self.apply(kf, [iter_elem(a0)], {}, node, env)
             return lst(iter_elem(a0) if a0 is not None else None)
         if beh == "box1":
+            if len(pa) > 1 and pa[0].kind == "func" and pa[0].ref is not None:
+                self.apply(pa[0], [iter_elem(pa[1])], {}, node, env)
             return lst(iter_elem(pa[1]) if len(pa) > 1 else None)
         if beh == "enumerate":
             return lst(AV("tuple", items=(SCALAR, iter_elem(a0) if a0 is not None else UNKNOWN)))
@@ -1549,6 +1558,9 @@ class _State:
             e = content(recv)
             if name in tables.LIST_WRITES:
                 self.write("store", recv, node, f".{name}(...)", env, value=pa[-1] if pa else None)
+                kf = kwargs.get("key")
+                if name == "sort" and kf is not None and kf.kind == "func" and kf.ref is not None:
+                    self.apply(kf, [e or UNKNOWN], {}, node, env)
                 if name == "pop":
                     return e or UNKNOWN
                 return NONE
